@@ -1,3 +1,4 @@
+#![allow(unused_imports, unused_variables, unused_mut, dead_code, non_snake_case, unused_parens, unused_braces, unused_assignments)]
 use vstd::prelude::*;
 use std::collections::HashMap;
 use std::collections::HashSet;
@@ -5,9 +6,13 @@ use std::cmp::min;
 use vstd::std_specs::hash::*;
 use vstd::std_specs::cmp::*;
 use std::cmp::Ordering;
+// rule D4: logging becomes a no-op (arguments are not evaluated)
 #[allow(unused_macros)]
 mod log {
     macro_rules! noop { ($($t:tt)*) => { () } }
     pub(crate) use noop as trace;
     pub(crate) use noop as debug;
+    pub(crate) use noop as info;
+    pub(crate) use noop as warn;
+    pub(crate) use noop as error;
 }
